@@ -108,10 +108,14 @@ def param_state_snapshot(opt, p):
     return out
 
 
-def check_history(cfg, hist, compare_from=0):
+def check_history(cfg, hist, compare_from=0, nrg=None):
+    """nrg: indices of parameters that get requires_grad=False after the optimizer is built while their .grad is still
+    assigned every step (externally computed gradients): presence is decided by .grad, so nothing may change."""
     import torch
 
     params, opt = seq.build(cfg)
+    for i in nrg or ():
+        params[i].requires_grad_(False)
     ref = seq.RefOpt(cfg, [seq.to_np(p.data) for p in params])
     any_soap = any(g.soap for g in ref.groups)
     msgs, digests, worst = [], [], 0.0
@@ -189,6 +193,11 @@ def run_unit(unit):
             res["violations"].append({"case": {"cfg": cfg, "hist": hist}, "msg": f"{msgs[0]} [cfg: {brief(cfg)}]", "kind": msgs[0].split(":")[-1][:30]})
             if len(res["violations"]) >= 10:
                 break
+        elif pre and all(pre[0]):
+            m2, _, _, _ = check_history(cfg, hist, compare_from=0, nrg=[1])
+            res["stats"]["requires_grad_false_histories"] = res["stats"].get("requires_grad_false_histories", 0) + 1
+            if m2:
+                res["violations"].append({"case": {"cfg": cfg, "hist": hist, "nrg": [1]}, "msg": f"{m2[0]} [parameter 1 has requires_grad=False but its .grad is assigned; cfg: {brief(cfg)}]", "kind": "nrg" + m2[0].split(":")[-1][:25]})
     # schedulers: one lr / weight-decay / momentum edit at every position of the histories that start with this prefix and
     # continue with single-parameter masks (the masked lists must be current when a stage is switched on later)
     if not cfg.get("groups"):
@@ -237,5 +246,5 @@ def brief(cfg):
 
 
 def replay(case):
-    msgs, _, _, _ = check_history(case["cfg"], case["hist"], compare_from=0)
+    msgs, _, _, _ = check_history(case["cfg"], case["hist"], compare_from=0, nrg=case.get("nrg"))
     return msgs
